@@ -342,6 +342,9 @@ pub async fn read_body(ctx: Ctx, idx: u32, body_id: u32, mut body: RecvStream, p
     let mut unreleased: VecDeque<usize> = VecDeque::new();
     let mut unreleased_total: usize = 0;
     let mut clean = false;
+    if plan.mode == ReadMode::AfterGate {
+        poll_fn(sim::poll_gate).await;
+    }
     loop {
         if let ReadMode::StopAfter(n) = plan.mode {
             if off as usize >= n {
@@ -705,6 +708,10 @@ async fn client_response(ctx: Ctx, spec: StreamSpec, mut fut: client::ResponseFu
         ret(&ctx, Op::DropResponseFuture, id, idx, sid, 0, 0, false, Res::Ok, None);
         raise_stop(&stop);
         return;
+    }
+    if spec.respond_gate {
+        // raw scripts: the application does not look at the response before the scenario gate opens
+        poll_fn(sim::poll_gate).await;
     }
     if spec.client_polls_info {
         loop {
